@@ -5,12 +5,15 @@ D="$(cd "$(dirname "$0")/.." && pwd)"
 OUT="$D/seeded/$NAME"
 mkdir -p "$OUT"
 cp "$WT/_out/patch.diff" "$WT/_out/demo.py" "$WT/_out/meta.json" "$OUT/" || exit 3
+# the worktree is brought to exactly HEAD + patch.diff (authors working concurrently have been seen to disturb each other)
+( cd "$WT" && git checkout -q -- src && git apply _out/patch.diff ) || { echo "patch.diff does not apply to the worktree's HEAD"; exit 3; }
 S=/var/tmp/seedchk-$$
 rm -rf $S; mkdir -p $S; cp -r /repo/src /repo/tests /repo/.git /repo/pytest.ini /repo/setup.cfg /repo/pyproject.toml $S/ 2>/dev/null
 cd $S && git checkout -q -- . 2>/dev/null
 mkdir -p _out; cp "$OUT/demo.py" _out/
 echo "== demo on unchanged tree (worktree with the change stashed)"
-( cd "$WT" && git stash -q -- src && PYTHONPATH=$WT/src /venv/bin/python _out/demo.py >/dev/null 2>&1; echo "exit $?"; git stash pop -q ) | tee "$OUT/demo_unchanged.txt"
+# (no `git stash`: the stash is shared by all worktrees of a repository and concurrent authors collide)
+( cd "$WT" && git diff -- src > $S.wt.diff && git apply -R $S.wt.diff && PYTHONPATH=$WT/src /venv/bin/python _out/demo.py >/dev/null 2>&1; echo "exit $?"; git apply $S.wt.diff; rm -f $S.wt.diff ) | tee "$OUT/demo_unchanged.txt"
 git apply "$OUT/patch.diff" || { echo "patch does not apply"; rm -rf $S; exit 3; }
 echo "== tests with patch"; PYTHONPATH=$S/src /venv/bin/python -m pytest -q -p no:cacheprovider 2>&1 | tail -1 | tee "$OUT/tests_with_patch.txt"
 echo "== demo with patch (worktree as left by its author)"
